@@ -150,7 +150,7 @@ def run(db, chk) -> None:
             jl = lambda c: ("jl", E.base, T.col(TRr, c))
             jr = lambda c: ("jr", E.base, T.col(TRr, c))
             d = T.sub(T.sub(jr("ts"), jl("ts")), jl("dur"))
-            check_term(chk, rule, f"{tag} launch_delay = max(device ts - host ts - host dur, 0)", where, E.col("launch_delay"), [("clip_lo", d, T.C(0))],
+            check_term(chk, rule, f"{tag} launch_delay = max(device ts - host ts - host dur, 0)", where, E.col("launch_delay"), [T.max2(d, T.C(0))],
                        "swapped sides or a missing clip change every row")
             check_term(chk, rule, f"{tag} cpu_duration = the launch call's duration", where, E.col("cpu_duration"), [jl("dur")])
             check_term(chk, rule, f"{tag} gpu_duration = the device activity's duration", where, E.col("gpu_duration"), [jr("dur")])
